@@ -7,7 +7,11 @@
 // the decoding of the reference write-out (verif/ref/refdec.Expand): one
 // static block per element, iterator replaced by a fresh variable per element.
 // Marks are compared exactly (refbody.go); an unknown for_each is compared with
-// the README's single block with an unknown iterator (judgePlaceholder).
+// the README's single block with an unknown iterator (judgePlaceholder); the
+// number of blocks it stands for is unknown, so an error that only states a
+// number of blocks (MinItems / MaxItems) is not accepted while some number of
+// blocks satisfies the spec (countAlternative). Families multilabel / count:
+// specs with 2 and 3 label names, MinItems / MaxItems in {0,1,2}.
 package main
 
 import (
@@ -1888,7 +1892,9 @@ func main() {
 			"(nest) 6 nestings (static z using the outer iterator, dynamic z over a global using both iterators, dynamic z over it.value.kids, dynamic z re-using the outer iterator name, static/dynamic/static z, dynamic z over an unknown) x Kz x 3 layouts x 7 collections x 4 iterators x 2 content forms x 6 K x {top level, inside a static block w} x syntaxes. " +
 			"(nest-3level) dynamic x > z > v (z, v each dynamic or static) with 6 iterator-name schemes (all default; outer=middle; outer=inner with another middle; all equal; inner = default name of middle; middle = default name of outer), innermost content using key and value of every name in scope, for_each of z / v from a global or from the nearest iterator, Kx in {list,tuple} x Kz, Kv in {list,tuple,block,map with labels from outer and own iterator} x syntaxes. " +
 			"(nest-marks) top = g; dynamic x over O { a; [dynamic z over I]; [static z]; [static s { c = x.key; dynamic z over I }]; static t { d } }; static y: O and I independently in {1 element, 2 elements, empty, unknown, marked A, marked B, marked A and B, unknown marked A, empty marked B} (thorough + maps, DynamicVal, lists of objects with I = x.value.kids) x nested dynamic block {directly in the content, inside the static child block s, both} x a in {constant, x.value} x b in {constant, template of x.key and z.value} x Kx in {list,tuple,set,block} x Kz in {list,block,set} x syntaxes. " +
-			"Marks are compared exactly (cumulative marks of every leaf) with a write-out in which everything inside a block generated from a marked collection carries its marks; an unknown for_each is additionally compared with the README's write-out (one block, iterator key and value unknown): not more known than it, equal where known, no error where it decodes, no mark from elsewhere, the collection's marks present. " +
+			"(multilabel / nest-multilabel) block types with 2 and 3 labels decoded by BlockMapSpec / BlockObjectSpec with 2 / 3 LabelNames or a BlockListSpec with 2 / 3 BlockLabelSpecs: dynamic x with 5 (4) vectors of label expressions (constants, it.key, a template of it.key, it.value per position) over 11 collections (empty, list, map, set, marked, partly unknown, unknown list / map / set, DynamicVal, marked unknown) x 2 iterators x 2 content forms x every layout with 0-2 static siblings sharing the leading labels x syntaxes; the same dynamic z next to a static z inside a static x (list, block) or inside the blocks generated by a dynamic x, for_each of z in 6 collections. " +
+			"(count / nest-count) BlockListSpec / BlockTupleSpec / BlockSetSpec with MinItems, MaxItems in {0,1,2}^2 (thorough {0..3}^2) decoding a dynamic block over {0, 1, 2 elements, map, unknown list / map / set, DynamicVal, marked unknown} and 0-2 static siblings in every order x 2 content forms x syntaxes, at the top level and (dynamic z) inside a static x or the blocks generated by a dynamic x. " +
+			"Marks are compared exactly (cumulative marks of every leaf) with a write-out in which everything inside a block generated from a marked collection carries its marks; an unknown for_each is additionally compared with the README's write-out (one block, iterator key and value unknown): not more known than it, equal where known, no error where it decodes, no mark from elsewhere, the collection's marks present, of the implied type where that write-out's decoding is; where the one block fails only MinItems / MaxItems (it decodes once these are taken out of the spec) and 0, 2 or 3 blocks in its place decode with the real spec, no error either and the result refines that decoding. " +
 			"Every case additionally: same expanded body decoded twice; expansion with context A, then B (same names, other values; compared with B's own write-out), then A again. distinct = distinct (shape, decoded value)",
 		Assumptions: []string{
 			"hclsyntax / json parsing, expression evaluation and go-cty are trusted; hcldec decoding of a static body is the subject of C08 and used on both sides",
@@ -1896,6 +1902,7 @@ func main() {
 			"for_each and labels see the enclosing iterators (labels also their own); an inner iterator of the same name hides the outer one and a global",
 			"values are compared with RawEquals including marks; when a for_each collection is marked the write-out is decoded through a pass-through body that marks everything inside a block generated from a marked collection with that collection's marks (hcldec.MarkedBody for the block values, the attribute values directly), and a difference is tolerated only if value and cumulative marks of every leaf agree",
 			"an unknown for_each stands for a single block whose iterator key and value are cty.DynamicVal (ext/dynblock/README.md); the real result may be unknown where that block's decoding is known, never the reverse",
+			"an unknown for_each does not determine the number of blocks (README: 'the length of the collection may eventually be different than one'): an error that only states a number of blocks (MinItems / MaxItems of a block list / tuple / set spec) while some number of blocks in the place of the placeholder satisfies the spec is not a property of the configuration; other ways in which the single placeholder does not fit (second block of a BlockSpec, repeated label of a BlockMapSpec) are left unspecified",
 		},
 		Gen:   gen,
 		Judge: judge,
